@@ -42,7 +42,9 @@ Bodies == {"bare", "empty_parens", "ident", "two_idents", "unknown_ident", "int_
            \* the single words the attribute grammars know (they open the main path of derives that need one: TryFrom's repr)
            "word_repr", "word_forward", "word_skip",
            \* trailing commas inside and after a nested list
-           "nested_trailing", "nested_trailing2"}
+           "nested_trailing", "nested_trailing2",
+           \* literals mentioning `_variant` (the enum-level wrapping path of the Display-like derives), bare and wrapped
+           "fmt_variant", "fmt_variant_wrap"}
 
 \* a position only exists on shapes that have it
 HasPosition(shape, pos) ==
